@@ -1372,7 +1372,7 @@ pub fn gen_case(seed: u64, idx: u64) -> Option<(HistCase, Rng, GenOpsCfg)> {
         _ => Subject::Dyn { grammar: g, kind: InKind::Slice },
     };
     // prelude (Slice / Str / Cache subjects): a sibling grammar lives and dies on the history's thread first
-    let prelude = if matches!(pick, 1 | 2 | 5 | 6 | 7 | 8) && rng.chance(1, 4) {
+    let prelude = if matches!(pick, 1 | 2 | 5 | 6 | 7 | 8) && rng.chance(1, 3) {
         let (Subject::Dyn { grammar, .. } | Subject::CacheDyn { grammar }) = &subject else { unreachable!() };
         Some(gram::sibling(grammar, &mut rng, gcfg.nsym, is_str))
     } else {
